@@ -163,6 +163,24 @@ def _check_unary(Bitset, bu, mon, v, n, acc, full=True):
     mon.eq("int", int(a), v, case)
     mon.eq("str", str(a), "".join("1" if b else "0" for b in model), case)
     mon.eq("iter", list(a), model, case)
+    # two iterations over the same object at once, and an operand used twice in one operation
+    mon.eq("iter-overlapping", list(zip(a, a)), list(zip(model, model)), case)
+    if n <= 12:
+        mon.eq("iter-nested", [(p, q) for p in a for q in a], [(p, q) for p in model for q in model], case)
+        i1, i2 = iter(a), iter(a)
+        alt = []
+        for _ in range(n):
+            alt.append((next(i1), next(i2)))
+        mon.eq("iter-two-handles", alt, list(zip(model, model)), case)
+    mon.same("self.concat", a + a, model + model, case)
+    mon.same("self.xor", a ^ a, [False] * n, case)
+    mon.same("self.and", a & a, model, case)
+    xs = Bitset(v, n) if n else Bitset(0, 0)
+    xs += xs
+    mon.same("self.iadd", xs, model + model, case)
+    xs = Bitset(v, n) if n else Bitset(0, 0)
+    xs ^= xs
+    mon.same("self.ixor", xs, [False] * n, case)
     mon.eq("len", a.bit_length(), n, case)
     mon.same("invert", ~a, [not b for b in model], case)
     check_derived(mon, ~a, [not b for b in model], case, "invert")
@@ -254,6 +272,26 @@ def _check_binary(Bitset, mon, va, na, vb, nb, acc):
         check_derived(mon, cat, ma + mb, case, "concat")
     mon.eq("eq", a == b, (va == vb and na == nb), case)
     mon.eq("operands-unchanged", (a.value, len(a), b.value, len(b)), (va, na, vb, nb), case)
+    # augmented assignment: `x += y` means x = x + y for a value type; another name bound to the old x keeps its value
+    if max(na, nb) > 4 and (va * 7 + vb) % 6:
+        return
+    x = Bitset(va, na)
+    old = x
+    x += b
+    mon.same("iadd", x, ma + mb, case)
+    mon.eq("iadd.alias-unchanged", (old.value, len(old), b.value, len(b)), (va, na, vb, nb), case)
+    if na == nb:
+        for opn, fn in (("iand", "and"), ("ior", "or"), ("ixor", "xor")):
+            x = Bitset(va, na)
+            old = x
+            if opn == "iand":
+                x &= b
+            elif opn == "ior":
+                x |= b
+            else:
+                x ^= b
+            mon.same(opn, x, m_binop(fn, ma, mb), case)
+            mon.eq(opn + ".alias-unchanged", (old.value, len(old)), (va, na), case)
 
 
 # ----------------------------------------------------------------------------- shard
